@@ -2853,25 +2853,25 @@ class BipartiteGraphEmbed(Decomposition):
             B, mean_photon_per_mode=mean_photon_per_mode, atol=tol, rtol=0
         )
 
-        if not self.identity or not drop_identity:
-            for m, s in enumerate(sq):
-                s = s if np.abs(s) >= _decomposition_tol else 0
+        # an identity edge matrix (a perfect matching) is a graph like any other: it is embedded as well
+        for m, s in enumerate(sq):
+            s = s if np.abs(s) >= _decomposition_tol else 0
 
-                if not (drop_identity and s == 0):
-                    cmds.append(Command(S2gate(-s), (reg[m], reg[m + N])))
+            if not (drop_identity and s == 0):
+                cmds.append(Command(S2gate(-s), (reg[m], reg[m + N])))
 
-            for X, _reg in ((U, reg[:N]), (V, reg[N:])):
+        for X, _reg in ((U, reg[:N]), (V, reg[N:])):
 
-                if np.allclose(X, np.identity(len(X)), atol=_decomposition_tol, rtol=0):
-                    X = np.identity(len(X))
+            if np.allclose(X, np.identity(len(X)), atol=_decomposition_tol, rtol=0):
+                X = np.identity(len(X))
 
-                if not (drop_identity and np.all(X == np.identity(len(X)))):
-                    cmds.append(
-                        Command(
-                            Interferometer(X, mesh=mesh, drop_identity=drop_identity, tol=tol),
-                            _reg,
-                        )
+            if not (drop_identity and np.all(X == np.identity(len(X)))):
+                cmds.append(
+                    Command(
+                        Interferometer(X, mesh=mesh, drop_identity=drop_identity, tol=tol),
+                        _reg,
                     )
+                )
 
         return cmds
 
